@@ -25,6 +25,19 @@ def obsSeq (r : Model.Seq.Result) (ra rb : Reg) : Option Model.Seq.Halt × Word 
 
 def m11 : List Byte := List.replicate 8 0x11#8
 
+/-- reading an `obs` equation without evaluating the run again -/
+theorem obs_eq {r : Result} {ra rb : Reg} {v : Option Model.Seq.Halt × Int × Nat × Word × Word × List Byte}
+    (h : obs r ra rb = v) :
+    r.halt = v.1 ∧ r.final.cycles = v.2.1 ∧ r.final.executed = v.2.2.1 ∧ r.final.ctx.Registers.get1 ra = v.2.2.2.1 ∧
+    r.final.ctx.Registers.get1 rb = v.2.2.2.2.1 ∧ r.final.ctx.Memory.take 8 = v.2.2.2.2.2 := by
+  subst h; exact ⟨rfl, rfl, rfl, rfl, rfl, rfl⟩
+
+theorem obsSeq_eq {r : Model.Seq.Result} {ra rb : Reg} {v : Option Model.Seq.Halt × Word × Word × List Byte}
+    (h : obsSeq r ra rb = v) :
+    r.halt = v.1 ∧ r.final.ctx.Registers.get1 ra = v.2.1 ∧ r.final.ctx.Registers.get1 rb = v.2.2.1 ∧
+    r.final.ctx.Memory.take 8 = v.2.2.2 := by
+  subst h; exact ⟨rfl, rfl, rfl, rfl⟩
+
 /-! ### a flush cancels an OLDER load that is still waiting for memory (found with this model; MVP-6.0 only)
 
 `lb a1, 0(zero); bnez s0, l3; addi a3, zero, 5; l3:` with `s0 = 1`.  With two execute units the load misses L3 and
